@@ -959,7 +959,7 @@ func ruleIntegerClassification(c *Ctx, rule string) {
 		return
 	}
 	bad := false
-	core.EachInstr(cls, func(i ssa.Instruction) {
+	c.eachFam(cls, func(i ssa.Instruction) {
 		if cv, ok := i.(*ssa.Convert); ok && isFloat(cv.X.Type()) && isIntType(cv.Type()) {
 			bad = true
 			c.R.Bad(rule, "classifier:float-to-int", c.pos(cv), "the type classifier converts a float to an integer type to decide integrality: for magnitudes of 2^63 and above the conversion overflows, so MaxInt64, large uint64 values and 1e19 are classified as non-integers and rejected by `type: integer`")
